@@ -357,3 +357,107 @@ package rpc
 //@   modifies prpc.*
 //@   modifies spec.*
 //@   ensures[C18] !s.done
+
+// ---- the client entry points (C04): Request / Channel / RequestOneway / channel
+//
+// The caller gets the status of the FIRST step that failed (open the channel, send the request,
+// read the response) and OK only if all three reported OK without an error having been produced;
+// the status of an answered call is exactly the one the response carries (ghost strings of the
+// parsed response, see Response); no result accompanies a failure; on failure every channel this
+// call opened is freed exactly once (the deferred literal, executed in place at every return), on
+// success the channel stays alive for the returned reference. Assumed: the mpx client, the
+// request writer under (*channel).Request, newChannel (a pooled state, reset - C18 - with the
+// logger set), Free/Method (reference counting).
+//@ package github.com/basecomplextech/spec/mpx
+//@ iface Client.Channel
+//@   modifies ghost.errMade at 0
+//@   ensures result1.Code != "ok" ==> ghost(errMade, 0) == 1
+//@   ensures result1.Code == "ok" ==> ghost(errMade, 0) == old(ghost(errMade, 0)) && result0 != nil
+
+//@ package github.com/basecomplextech/baselibrary/ref
+//@ func NewFreer
+//@   trusted
+//@   ensures result != nil
+
+//@ package github.com/basecomplextech/spec/rpc
+//@ func newChannel
+//@   trusted
+//@   modifies rpc.channelState.*
+//@   modifies ghost.nOpen at 0
+//@   ensures result != nil && ghost(nOpen, 0) == old(ghost(nOpen, 0)) + 1
+//@   ensures !cast(ghost(stateOf, result), channelState).recvFailed && !cast(ghost(stateOf, result), channelState).recvResp
+//@   ensures cast(ghost(stateOf, result), channelState).logger == logger
+
+//@ func (*channel).Free
+//@   trusted
+//@   modifies ghost.nFree at 0
+//@   ensures ghost(nFree, 0) == old(ghost(nFree, 0)) + 1
+
+//@ func (*channel).Method
+//@   trusted
+
+//@ func (*channel).Request
+//@   trusted
+//@   modifies rpc.channelState.sendReq
+//@   modifies rpc.channelState.method
+//@   modifies ghost.errMade at 0
+//@   modifies ghost.nSend at 0
+//@   ensures result.Code != "ok" ==> ghost(errMade, 0) == 1
+//@   ensures result.Code == "ok" ==> ghost(errMade, 0) == old(ghost(errMade, 0)) && ghost(nSend, 0) == old(ghost(nSend, 0)) + 1
+
+//@ func (*client).channel
+//@   safety[C04]
+//@   requires c != nil && c.client != nil && ctx != nil
+//@   modifies rpc.channelState.*
+//@   modifies ghost.errMade at 0
+//@   modifies ghost.nOpen at 0
+//@   ensures[C04] result1.Code != "ok" ==> result0 == nil && ghost(errMade, 0) == 1 && ghost(nOpen, 0) == old(ghost(nOpen, 0))
+//@   ensures[C04] result1.Code == "ok" ==> result0 != nil && ghost(errMade, 0) == old(ghost(errMade, 0)) && ghost(nOpen, 0) == old(ghost(nOpen, 0)) + 1
+//@   ensures[C04] result1.Code == "ok" ==> !cast(ghost(stateOf, result0), channelState).recvFailed && !cast(ghost(stateOf, result0), channelState).recvResp && cast(ghost(stateOf, result0), channelState).logger == c.logger
+
+//@ func (*client).Request
+//@   safety[C04]
+//@   requires c != nil && c.client != nil && c.logger != nil && ctx != nil
+//@   modifies rpc.channelState.*
+//@   modifies status.*
+//@   modifies ghost.errMade at 0
+//@   modifies ghost.nOpen at 0
+//@   modifies ghost.nFree at 0
+//@   modifies ghost.nSend at 0
+//@   modifies ghost.lastCode.*
+//@   modifies ghost.lastMsg.*
+//@   modifies ghost.nParsed at 0
+//@   ensures[C04] result1.Code == "ok" ==> ghost(errMade, 0) == old(ghost(errMade, 0))
+//@   ensures[C04] result1.Code == "ok" ==> ghost(nSend, 0) == old(ghost(nSend, 0)) + 1 && ghost(nParsed, 0) == old(ghost(nParsed, 0)) + 1 && gstr(lastCode, 0) == "ok"
+//@   ensures[C04] ghost(nParsed, 0) != old(ghost(nParsed, 0)) ==> result1.Code == gstr(lastCode, 0) && result1.Message == gstr(lastMsg, 0)
+//@   ensures[C04] result1.Code != "ok" ==> result0 == nil
+//@   ensures[C04] result1.Code == "ok" ==> result0 != nil && ghost(nOpen, 0) == old(ghost(nOpen, 0)) + 1 && ghost(nFree, 0) == old(ghost(nFree, 0))
+//@   ensures[C04] result1.Code != "ok" ==> ghost(nFree, 0) - old(ghost(nFree, 0)) == ghost(nOpen, 0) - old(ghost(nOpen, 0))
+
+//@ func (*client).Channel
+//@   safety[C04]
+//@   requires c != nil && c.client != nil && c.logger != nil && ctx != nil
+//@   modifies rpc.channelState.*
+//@   modifies status.*
+//@   modifies ghost.errMade at 0
+//@   modifies ghost.nOpen at 0
+//@   modifies ghost.nFree at 0
+//@   modifies ghost.nSend at 0
+//@   ensures[C04] result1.Code == "ok" ==> ghost(errMade, 0) == old(ghost(errMade, 0)) && ghost(nSend, 0) == old(ghost(nSend, 0)) + 1
+//@   ensures[C04] result1.Code != "ok" ==> result0 == nil
+//@   ensures[C04] result1.Code == "ok" ==> result0 != nil && ghost(nOpen, 0) == old(ghost(nOpen, 0)) + 1 && ghost(nFree, 0) == old(ghost(nFree, 0))
+//@   ensures[C04] result1.Code != "ok" ==> ghost(nFree, 0) - old(ghost(nFree, 0)) == ghost(nOpen, 0) - old(ghost(nOpen, 0))
+
+//@ func (*client).RequestOneway
+//@   safety[C04]
+//@   requires c != nil && c.client != nil && c.logger != nil && ctx != nil
+//@   modifies rpc.channelState.*
+//@   modifies status.*
+//@   modifies ghost.errMade at 0
+//@   modifies ghost.nOpen at 0
+//@   modifies ghost.nFree at 0
+//@   modifies ghost.nSend at 0
+//@   modifies ghost.nParsed at 0
+//@   ensures[C04] result.Code == "ok" ==> ghost(errMade, 0) == old(ghost(errMade, 0)) && ghost(nSend, 0) == old(ghost(nSend, 0)) + 1
+//@   ensures[C04] ghost(nParsed, 0) == old(ghost(nParsed, 0))
+//@   ensures[C04] ghost(nFree, 0) - old(ghost(nFree, 0)) == ghost(nOpen, 0) - old(ghost(nOpen, 0))
